@@ -163,6 +163,8 @@ def _name(d: dict, asm: Assembled) -> Failure:
             fn = o.fn.split(' :: ')[-1].replace('fn ', '')
             if msg.startswith('assertion failed'):
                 kind = 'hint'
+            elif msg.startswith('decreases not satisfied') or msg.startswith('could not prove termination'):
+                kind = 'safety'      # termination
             else:
                 kind = 'contract'
             name = '%s::%s::%s' % (fn, o.block, label)
